@@ -12,6 +12,11 @@ CLAIMED = {
          "DESIGN.md §3 C04"),
 }
 
+CLAIMED["C02"] = ("predicated path enumeration over go/ssa (E4) with ordering atoms; boundary evaluation of the delete condition",
+         "Static, all-paths: the complete single-step decision table of the cache's stale/equal/newer/future switch (every ordering of new vs stored timestamp, proto-equality, 18 future-threshold sub-scenarios incl. equality boundaries), 'rejected => no tree write' on every path, the delete condition evaluated at <,=,>, and ctree.internalDelete honouring the condition. Necessary single-step conditions of the per-leaf invariant; the invariant over sequences is not decided.",
+         "go/ssa model; atoms identified by callee+receiver provenance (GetTimestamp on the parameter vs on the value read from the leaf); generated getters pure; loops unrolled to a bound",
+         "DESIGN.md §3 C02")
+
 NA_REASON = {}
 DEFAULT_NA = "check not built yet in this round (static rules designed in DESIGN.md section 3); not claimed until the rule runs"
 
